@@ -251,11 +251,11 @@ func (e *env) delete(mst string, p *pnode) error {
 // them all and runs a select. Nothing of this may be visible in the main index.
 func (e *env) sibling() error {
 	if e.sib == nil {
+		e.sibSeq = 1000 // same numbering as the first run of the main index
 		s, err := openIndex(filepath.Join(e.dir, "sib"), e.clock, &e.sibSeq)
 		if err != nil {
 			return err
 		}
-		e.sibSeq = e.now - (e.now - 1000) // same numbering as the first run of the main index
 		d, err := openIndex(filepath.Join(e.dir, "sibdel"), e.clock, new(uint64))
 		if err != nil {
 			return err
